@@ -155,6 +155,50 @@ def _judge(name, root, lay, before_files, before_abs, before_ok, src, a, k, resu
         if probs:
             _violation("invariant-broken-by-call", name,
                        {"outcome": "ok" if err is None else type(err).__name__, "problems": [p[0] for p in probs][:5]})
+    ename = type(err).__name__ if err is not None else None
+    # --- a rejected re-bind leaves every reference file and every object that existed unchanged (C03)
+    if ename in ("PidRefsAlreadyExistsError", "HashStoreRefsAlreadyExists") and before_ok and name in ("store_object", "tag_object"):
+        _count("judged", "rebind-rejected-unchanged")
+        perm_b, perm_a = _permanent(before_files), _permanent(after_files)
+        changed = [k for k, v in perm_b.items() if (k.startswith("refs/") or k.startswith("objects/")) and perm_a.get(k) != v]
+        added = [k for k in perm_a if k.startswith("refs/") and k not in perm_b]
+        if changed or added:
+            _violation("rejected-rebind-changed-references-or-objects", name, {"changed": changed[:4], "added": added[:4]})
+    # --- no completed call removes or alters an object that a pid still references afterwards (C04)
+    if before_ok and not io_error and not mocked:
+        _count("judged", "referenced-objects-intact")
+        after_abs2 = absstate.abstract(root, lay)
+        for rel, cid in after_abs2.raw_pidrefs.items():
+            if before_abs.raw_pidrefs.get(rel) == cid and cid in before_abs.objects and cid in after_abs2.cid_refs:
+                if after_abs2.objects.get(cid) != before_abs.objects[cid]:
+                    _violation("referenced-object-removed-or-altered", name, {"cid": cid, "outcome": ename or "ok"})
+                    break
+    # --- validation verdict == (size and checksum match), judged from the call's own arguments (C06)
+    if name == "store_object" and src is not None and not io_error and not mocked:
+        pid = k.get("pid", a[0] if a else None)
+        checksum = k.get("checksum", a[3] if len(a) > 3 else None)
+        calgo = k.get("checksum_algorithm", a[4] if len(a) > 4 else None)
+        size = k.get("expected_object_size", a[5] if len(a) > 5 else None)
+        if pid is not None and (checksum is not None and calgo is not None or size is not None) and (checksum is None) == (calgo is None):
+            verdict = None
+            try:
+                halgo = str(calgo).lower().replace("-", "").replace("_", "") if calgo is not None else None
+                if halgo is not None and halgo.startswith("sha3"):
+                    halgo = "sha3_" + halgo[4:]
+                ok_sum = True if checksum is None else (hashlib.new(halgo, src).hexdigest() == str(checksum).lower())
+                ok_size = True if size is None else (isinstance(size, int) and not isinstance(size, bool) and size == len(src))
+                verdict = ok_sum and ok_size
+            except (ValueError, TypeError):
+                verdict = None
+            if verdict is not None and (err is None or ename in ("NonMatchingChecksum", "NonMatchingObjSize")):
+                _count("judged", "validation-verdict")
+                if verdict and err is not None:
+                    _violation("valid-object-rejected", name, {"error": ename})
+                if not verdict and err is None:
+                    _violation("invalid-object-accepted", name, {"checksum_given": checksum is not None, "size_given": size is not None})
+                if not verdict and err is not None and isinstance(pid, str):
+                    if lay.pidref_rel(pid) in after_files and lay.pidref_rel(pid) not in before_files:
+                        _violation("invalid-object-left-pid-bound", name, {"error": ename})
     # --- what store_object reports is true and the bytes are at their address (C01, C02, C15)
     if name == "store_object" and err is None and src is not None:
         _count("judged", "store-result-true")
